@@ -55,6 +55,14 @@ class NumpyO:
 
     np_deg2rad = np_radians
 
+    def np_round(self, interp, x, decimals=0, **k):
+        # nearest integer (ties: any nearest one -- the witness only states |n - x| <= 1/2)
+        if decimals != 0:
+            raise core.Unsupported("np.round with decimals")
+        return _elementwise(lambda v: round(v) if is_sym(v) else float(_np.round(v)), x)
+
+    np_around = np_rint = np_round
+
     def np_logical_and(self, interp, a, b):
         return _np.logical_and(a, b)
 
